@@ -433,7 +433,7 @@ func cmdCheck(prop, tier string) int {
 	}
 	if os.Getenv("VERIF_LIST_SIGS") != "" {
 		for _, k := range keys {
-			lines = append(lines, fmt.Sprintf("SIG %s %s (run %d)", k.part, k.sig, best[k].Index))
+			lines = append(lines, fmt.Sprintf("SIG %s %s (run %d; in %d runs)", k.part, k.sig, best[k].Index, seenIn[k]))
 		}
 	}
 	if nviol > reported {
